@@ -66,17 +66,38 @@ def build_shadow(tag: str, with_rust: bool = False) -> str:
 
 
 def build_rust() -> str:
-    """cargo build --release --offline of /repo/rust into /verif/.build/cargo."""
-    manifest = os.path.join(REPO, "rust", "Cargo.toml")
-    if not os.path.isfile(manifest):
+    """cargo build --release --offline of the tree's rust/ crate; returns a private copy of the .so.
+
+    The sources are first copied to one fixed place (/verif/.build/rust-src), which gives them fresh
+    mtimes: cargo decides freshness by mtime per *package path*, so building different trees
+    (/repo, a pinned tree, a mutant) from their own paths into a shared target dir can silently reuse
+    the other tree's artefact.  One fixed source path + fresh mtimes + a lock makes every run compile
+    exactly the tree under test (dependencies stay cached; the crate itself rebuilds in ~10 s).
+    """
+    import fcntl
+
+    src = os.path.join(REPO, "rust")
+    if not os.path.isfile(os.path.join(src, "Cargo.toml")):
         raise HarnessError("rust/Cargo.toml missing")
+    os.makedirs(BUILD, exist_ok=True)
     target = os.path.join(BUILD, "cargo")
-    env = dict(os.environ, CARGO_TARGET_DIR=target, PYO3_PYTHON=sys.executable, CARGO_NET_OFFLINE="true")
-    cmd = ["cargo", "build", "--release", "--offline", "--manifest-path", manifest]
-    p = subprocess.run(cmd, env=env, capture_output=True, text=True)
-    if p.returncode != 0:
-        raise HarnessError("cargo build failed:\n" + p.stderr[-3000:])
-    so = os.path.join(target, "release", "lib_solvor_rust.so")
-    if not os.path.isfile(so):
-        raise HarnessError(f"{so} not produced")
-    return so
+    copy = os.path.join(BUILD, "rust-src")
+    with open(os.path.join(BUILD, "rust.lock"), "w") as lock:
+        fcntl.flock(lock, fcntl.LOCK_EX)
+        shutil.rmtree(copy, ignore_errors=True)
+        shutil.copytree(src, copy, ignore=shutil.ignore_patterns("target"), copy_function=shutil.copy)
+        env = dict(os.environ, CARGO_TARGET_DIR=target, PYO3_PYTHON=sys.executable, CARGO_NET_OFFLINE="true")
+        cmd = ["cargo", "build", "--release", "--offline", "--manifest-path", os.path.join(copy, "Cargo.toml")]
+        p = subprocess.run(cmd, env=env, capture_output=True, text=True)
+        if p.returncode != 0:
+            raise HarnessError("cargo build failed:\n" + p.stderr[-3000:])
+        so = os.path.join(target, "release", "lib_solvor_rust.so")
+        if not os.path.isfile(so):
+            raise HarnessError(f"{so} not produced")
+        private = os.path.join(BUILD, f"_solvor_rust-{os.getpid()}.so")
+        shutil.copy(so, private)
+    atexit.register(lambda: os.path.exists(private) and os.getpid() == _owner_pid and os.remove(private))
+    return private
+
+
+_owner_pid = os.getpid()
